@@ -35,6 +35,7 @@ struct Check {
   static void one(uintptr_t pbits, uintptr_t mark) {
     Dummy* p = reinterpret_cast<Dummy*>(pbits);
     MP m = mk(p, mark);
+    if (m.operator->() != m.get()) fail("MARKED_PTR", "W=%lu U=%lu: operator-> differs from get()", (unsigned long)W, (unsigned long)U);
     if (m.get() != p) fail("MARKED_PTR", "W=%lu U=%lu: get() returns %p for pointer %p mark %#lx", (unsigned long)W, (unsigned long)U, (void*)m.get(), (void*)p, (unsigned long)mark);
     if (m.mark() != mark) fail("MARKED_PTR", "W=%lu U=%lu: mark() returns %#lx for pointer %p mark %#lx", (unsigned long)W, (unsigned long)U, (unsigned long)m.mark(), (void*)p, (unsigned long)mark);
     if (static_cast<bool>(m) != (p != nullptr || mark != 0)) fail("MARKED_PTR", "W=%lu U=%lu: operator bool wrong for pointer %p mark %#lx", (unsigned long)W, (unsigned long)U, (void*)p, (unsigned long)mark);
@@ -128,6 +129,47 @@ void concurrent_ptr_test() {
       if (!c.compare_exchange_strong(expected, MP(b, 7 - mk))) fail("CONCURRENT_PTR", "CAS with the current value failed");
       l = c.load();
       if (l.get() != b || l.mark() != 7 - mk) fail("CONCURRENT_PTR", "value after CAS differs");
+      // every compare_exchange overload (weak / strong, one / two orders, plain / volatile object): a CAS expecting
+      // another pointer or another mark must fail, report the current value and leave the cell alone; a CAS expecting
+      // the current value must succeed (a weak CAS fails spuriously only under --s) and install exactly `desired`
+      volatile CP& vc = c;
+      for (int ov = 0; ov < 8; ov++) {
+        auto cas = [&](MP& e, MP d) {
+          switch (ov) {
+            case 0: return c.compare_exchange_weak(e, d);
+            case 1: return vc.compare_exchange_weak(e, d, std::memory_order_acq_rel);
+            case 2: return c.compare_exchange_weak(e, d, std::memory_order_release, std::memory_order_relaxed);
+            case 3: return vc.compare_exchange_weak(e, d, std::memory_order_acq_rel, std::memory_order_acquire);
+            case 4: return c.compare_exchange_strong(e, d);
+            case 5: return vc.compare_exchange_strong(e, d, std::memory_order_acq_rel);
+            case 6: return c.compare_exchange_strong(e, d, std::memory_order_release, std::memory_order_relaxed);
+            default: return vc.compare_exchange_strong(e, d, std::memory_order_acq_rel, std::memory_order_acquire);
+          }
+        };
+        MP cur = c.load(std::memory_order_relaxed);
+        MP wrong(cur.get() == a ? b : a, cur.mark());
+        if (cas(wrong, MP(p, mk)) || wrong != cur || c.load() != cur) fail("CONCURRENT_PTR", "CAS overload %d with a different pointer succeeded or misreported", ov);
+        MP wrong2(cur.get(), (cur.mark() + 1) & 7);
+        if (cas(wrong2, MP(p, mk)) || wrong2 != cur || c.load() != cur) fail("CONCURRENT_PTR", "CAS overload %d with a different mark succeeded or misreported", ov);
+        MP desired(ov & 1 ? a : b, (mk + ov) & 7);
+        MP e = cur;
+        if (!cas(e, desired)) fail("CONCURRENT_PTR", "CAS overload %d with the current value failed", ov);
+        if (c.load(std::memory_order_acquire) != desired) fail("CONCURRENT_PTR", "CAS overload %d installed a different value", ov);
+      }
+      if (p != nullptr) { // dereference through a marked pointer ignores the mark
+        MP mp(p, mk);
+        if (mp.operator->() != p || &*mp != p || mp->v != 0) fail("CONCURRENT_PTR", "operator-> / operator* of a marked_ptr with mark %lu do not reach the object", (unsigned long)mk);
+      }
+      // construction from a marked_ptr, store(guard_ptr) (shorthand for store(guard.get()): pointer without mark)
+      CP c2(MP(p, mk));
+      if (c2.load() != MP(p, mk)) fail("CONCURRENT_PTR", "constructor does not hold the given marked_ptr");
+      if (p != nullptr) {
+        typename CP::guard_ptr g;
+        g.acquire(c2);
+        if (g.get() != p) fail("CONCURRENT_PTR", "guard acquired from the cell refers to another object");
+        c.store(g, std::memory_order_release);
+        if (c.load().get() != p) fail("CONCURRENT_PTR", "store(guard_ptr) stored another pointer");
+      }
     }
   mark_nontrivial();
   op_begin(1);
